@@ -12,6 +12,8 @@ import PsV.Driver.C17
 import PsV.Driver.C09
 import PsV.Driver.C08
 import PsV.Driver.C20
+import PsV.Driver.C11
+import PsV.Driver.C10
 open PsV.Driver
 
 def stateless (f : List String → String) : IO Unit := do
@@ -30,7 +32,9 @@ def drivers : List (String × IO Unit) :=
    ("C17", stateless C17.handle),
    ("C09", C09.run),
    ("C08", C08.run),
-   ("C20", C20.run)]
+   ("C20", C20.run),
+   ("C11", C11.run),
+   ("C10", C10.run)]
 
 def main (args : List String) : IO UInt32 := do
   match args with
